@@ -14,6 +14,7 @@ From FT Require Gen.History_gen Proofs.HistoryGen Props.C02.
 From FT Require Proofs.EditWFPaint Proofs.EditWFPaintRollback Proofs.EditSessions Proofs.EditInverse Proofs.EditFrame.
 From FT Require Gen.UserActions_gen Proofs.UserActionsTie.
 From FT Require Proofs.CoreTieBundle.
+From FT Require Proofs.EditSessionsFull Proofs.EditSessionsAll Proofs.EditSessionsRefused.
 Import ListNotations.
 Open Scope Z_scope.
 
@@ -161,7 +162,28 @@ Example C11_nonvacuous :
   fst (step fx (OUpdAttrs 2 [(KTime, VZ 7)])) = fx /\ fst (snd (step fx (OUpdAttrs 2 [(KTime, VZ 7)]))) = 12.
 Proof. vm_compute. repeat split. Qed.
 
+(* ---- whole sessions (Proofs/EditSessionsRefused.v): anywhere along ANY session of the public interface - edits
+        of every kind, undo, redo, queries, accepted or refused, in any order and number - from a well-formed
+        start with an empty history, a call that is refused (any exception code; strokes that are rolled back
+        included) leaves a state that is observably equal to the one it was made in - nodes, edges, every
+        registered feature value, the array, the feature table - and well formed.  Hypotheses: those of
+        C03_sessions (three configuration facts, the documented preconditions of direct node calls at the
+        moment each is made). ---- *)
+Theorem C11_sessions_refused_call_changes_nothing : forall st0 ops,
+  WF st0 -> EditSessions.reg_ok st0 -> EditBook.rp_disjoint st0 -> FT.Proofs.EditSessionsFull.rp_decl st0 ->
+  undo_stack st0 = [] -> redo_stack st0 = [] -> FT.Proofs.EditSessionsAll.pre_along_all st0 ops ->
+  forall pre o post, ops = pre ++ o :: post -> o <> OUndo -> o <> ORedo ->
+  fst (snd (step (run st0 pre) o)) <> 0 ->
+  EditInverse.obs_eq (run st0 pre) (fst (step (run st0 pre) o)) /\ WF (fst (step (run st0 pre) o)).
+Proof. exact FT.Proofs.EditSessionsRefused.session_refused_call_changes_nothing. Qed.
+Example C11_sessions_refused_nonvacuous :
+  let s1 := run EditWFEdge.exs [OPaint 4 2 [3] 0 false] in
+  let o := OPaint 7 2 [1; 2] 1 false in
+  fst (snd (step s1 o)) = 11 /\ EditInverse.obs_eq s1 (fst (step s1 o)) /\ WF (fst (step s1 o)).
+Proof. exact FT.Proofs.EditSessionsRefused.refused_nonvacuous. Qed.
+
 Print Assumptions C11_delete_edge.
+Print Assumptions C11_sessions_refused_call_changes_nothing.
 Print Assumptions C11_add_edge.
 Print Assumptions C11_update_attrs.
 Print Assumptions C11_swap.
